@@ -374,6 +374,10 @@ class Interp:
     def call(self, n, env):
         q = n.get("rvq") or n.get("q") or ""
         q0 = n.get("q") or ""
+        if n.get("k") == "mcall" and n.get("name") in ("is_ok", "is_err") and not n.get("a"):
+            r_ = ir.strip(n["recv"])
+            if r_ is not None and r_.get("k") in ("call", "mcall") and ((r_.get("q") or "") in CONTENT_SINKS or (r_.get("rvq") or "") in CONTENT_SINKS):
+                self._existence_only().add(id(r_))     # the handle is dropped on the spot: an existence test, not a content sink
         args = ([n["recv"]] if n.get("k") == "mcall" else []) + list(n.get("a", ()))
         if n.get("k") == "call" and "f" in n:
             self.ev(n["f"], env)
